@@ -174,8 +174,22 @@ def build() -> Check:
         if len(pops) != 1 or pops[0].data["method"] != "popleft":
             bad.append((f"the holder is removed via {[p.data['method'] for p in pops]} (must be exactly one popleft: the head owns the lock)", t))
             continue
-        post = [(k, v) for k, v in t.pc[[k for k, _ in t.pc].index("truthy(lock._waiters)") + 1:] if k in ("truthy(lock._waiters)", "truthy(lock._is_broken)")]
-        d2 = dict(post)
+        # what the path examined *after* the hand-over (decisions are events, so their position relative to the pop is known)
+        d2 = {}
+        for e in evs[evs.index(pops[0]) + 1:]:
+            if e.kind != "DECIDE":
+                continue
+            k_, o_ = e.data["key"], e.data["outcome"]
+            if k_ == "truthy(lock._waiters)":
+                d2["truthy(lock._waiters)"] = o_ is True
+            elif k_ in ("len(lock._waiters) > 0", "len(lock._waiters) != 0", "len(lock._waiters) >= 1"):
+                d2["truthy(lock._waiters)"] = o_ is True
+            elif k_ == "len(lock._waiters) == 0":
+                d2["truthy(lock._waiters)"] = o_ is False
+            elif k_ == "truthy(lock._is_broken)":
+                d2[k_] = o_ is True
+        if "truthy(lock._is_broken)" not in d2 and "truthy(lock._is_broken)" in dict(t.pc):
+            d2["truthy(lock._is_broken)"] = dict(t.pc)["truthy(lock._is_broken)"]
         should_wake = d2.get("truthy(lock._waiters)") is True and d2.get("truthy(lock._is_broken)") is False
         head_sets = [e for e in sets if e.data["recv"] == "lock._waiters[0]"]
         if should_wake and (len(head_sets) != 1 or evs.index(head_sets[0]) < evs.index(pops[0])):
